@@ -588,38 +588,40 @@ Graph::NodeId TreeGraphImpl<GraphImpl>::MRCA(const std::vector<Graph::NodeId>& n
   if (nbnodes == 1)
     return nodes[0];
 
-  // Forward counts
-  auto fathers = std::make_shared<std::map<Graph::NodeId, unsigned int>>();
-  auto sons = std::make_shared<std::map<Graph::NodeId, unsigned int>>();
-
-  for (auto nodeid:nodes)
+  // The common ancestors of all the nodes lie on the path from the first
+  // node up to the root: the MRCA is the deepest node of that path which is
+  // an ancestor of (or is) each of the other nodes.
+  std::vector<Graph::NodeId> path;
+  Graph::NodeId current = nodes[0];
+  path.push_back(current);
+  while (hasFather(current))
   {
-    (*sons)[nodeid] = 1;
+    current = getFatherOfNode(current);
+    path.push_back(current);
   }
 
-  while (sons->size() > 1)
+  size_t mrca = 0; // position in path
+  for (size_t i = 1; i < nbnodes; ++i)
   {
-    // From sons to fathers
-    for (auto son:(*sons))
+    current = nodes[i];
+    // climb from the node until the path is met, at or above the present candidate
+    for (;;)
     {
-      Graph::NodeId here = (!hasFather(son.first)) ? son.first : getFatherOfNode(son.first);
-
-      if (fathers->find(here) == fathers->end())
-        (*fathers)[here] = son.second;
-      else
-        (*fathers)[here] += son.second;
-
-      if ((*fathers)[here] == nbnodes)
-        return here;
+      size_t pos = mrca;
+      while (pos < path.size() && path[pos] != current)
+        ++pos;
+      if (pos < path.size())
+      {
+        mrca = pos;
+        break;
+      }
+      if (!hasFather(current))
+        throw Exception("TreeGraphImpl::MRCA not found");
+      current = getFatherOfNode(current);
     }
-
-    auto temp = sons;
-    sons = fathers;
-    fathers = temp;
-    fathers->clear();
   }
 
-  throw Exception("TreeGraphImpl::MRCA not found");
+  return path[mrca];
 }
 }
 #endif // BPP_GRAPH_TREEGRAPHIMPL_H
